@@ -25,7 +25,7 @@ def units(tier):
             rot += 1
             std = "f2008" if (f08 or rot % 2) else "f2003"
             two = (rot % 3 == 0)
-            us.append(dict(h="bad_stmt", prog=p, line=i, two=two, n=1 if (q or rot % 2) else 2, std=std, ic=bool(rot % 4), cost=2))
+            us.append(dict(h="bad_stmt", prog=p, line=i, two=two, n=1 if (q or rot % 2) else 2, std=std, ic=bool(rot % 4), cm=(rot % 5 == 0), cost=2))
             if i > 0 and (not q or rot % 4 == 0):
                 # garbage = a bare keyword that needs more text to be a statement; unit name symbolic
                 us.append(dict(h="bad_stmt", prog=p, line=i, two=False, kw=rot % len(BARE), n=0, std=std, ic=True, symname=bool(rot % 8 == 0), cost=3))
@@ -37,7 +37,7 @@ def meta(tier):
     return dict(bounds=dict(programs=len(PG.programs("quick" if q else "thorough")), statement="every statement (line) of every program",
                             garbage_len="1 (quick) / 1-2", garbage_alphabet=GARBAGE, layouts="garbage on one physical line or continued over two"),
                 assumptions=["free form; garbage characters cannot start any statement and are not comment/directive introducers"],
-                budget_s=300 if q else 2400, unit_budget_s=60 if q else 300, witness_every=5)
+                budget_s=300 if q else 1500, unit_budget_s=60 if q else 300, witness_every=5)
 
 
 def bad_stmt(ctx):
@@ -58,6 +58,9 @@ def bad_stmt(ctx):
         new = ["  " + g + " &", "   & " + g2]
     else:
         new = ["  " + g]
+    if p.get("cm"):
+        # a trailing comment on every other line of the program
+        lines = [l + " ! note" for l in lines]
     lines = lines[:i] + new + lines[i + 1:]
     text = "\n".join(lines) + "\n"
     want_line = i + len(new)          # 1-based number of the last physical line of the garbage statement
